@@ -28,6 +28,18 @@ def Alt23 (c : Cfg) (k : Comp) (st : Bytes) : Prop :=
 def StartC (c : Cfg) (k : Comp) (st : Bytes) : Prop :=
   (∀ x, getPrev st.slc st.index = some x → c.isDigit x = false ∧ c.isSep x = false) ∨ Alt23 c k st
 
+/-- a byte `parse_digits` stopped at is no digit in the sense of the separator predicates — also for "bytes" ≥ 256 of
+the model's `List Nat` inputs (`char_to_digit_const` wraps modulo 256, `is_digit` of the model does not) -/
+theorem isDigit_of_stop2 (c : Cfg) (x : Nat) (hr : c.mantissaRadix ≤ 36)
+    (h : charToDigit x c.mantissaRadix = none) : c.isDigit x = false := by
+  by_cases hx : x < 256
+  · exact isDigit_of_stop c x hx hr h
+  · unfold Cfg.isDigit digitVal digitVal36
+    have h1 : ¬ (48 ≤ x ∧ x ≤ 57) := by omega
+    have h2 : ¬ (65 ≤ x ∧ x ≤ 90) := by omega
+    have h3 : ¬ (97 ≤ x ∧ x ≤ 122) := by omega
+    simp [h1, h2, h3]
+
 theorem sepNotDigit (cx : Ctx c) (x : Nat) (hx : c.isSep x = true) : c.isDigit x = false :=
   isDigit_of_stop c x (sep_lt_256 c x hx) cx.r36 (by
     have := isSep_eq cx hx; rw [this]; exact charToDigit_none_of_not_isDig cx.sepNotDigM)
@@ -271,13 +283,13 @@ theorem parseDigits_integer_fc (cx : Ctx c) (b e : Bytes) (ds : List Nat) (hb : 
 /-- **the slice the first pass of a non-contiguous iterator stores is re-scanned completely** (release-build
 `parse_digits` on the fresh slice): every predicate but I+T+C; I+T+C when the run does not start behind a non-digit -/
 theorem firstPass_sliceRun (cx : Ctx c) (hf : c.feats.format = true) (k : Comp) (hks : k ≠ .special) (p : Pred)
-    (hk : c.skip k = .pred p) (st e : Bytes) (ds : List Nat) (hv : Bytes.Valid st) (h256 : ∀ x ∈ st.slc, x < 256)
+    (hk : c.skip k = .pred p) (st e : Bytes) (ds : List Nat) (hv : Bytes.Valid st)
     (hcnt : Bytes.iterCount c k st = 0) (hstart : StartC c k st) (hp : p ≠ .itc ∨ Alt23 c k st)
     (hrun : parseDigits c k c.mantissaRadix st = .ok (ds, e)) :
     SliceRun c k (Bytes.new (slice st.slc st.index e.index)) := by
   have hR := parseDigits_eq_advS cx k st e ds hv hrun
   have hstop : ∀ x, st.slc[e.index]? = some x → (rel c).isDigit x = false := fun x hx =>
-    isDigit_of_stop (rel c) x (h256 x (List.mem_of_getElem? hx)) cx.r36 (hR.stop x hx)
+    isDigit_of_stop2 (rel c) x cx.r36 (hR.stop x hx)
   have fin : ∀ R : List Nat, (∃ ds' e', parseDigits (rel c) k (rel c).mantissaRadix (Bytes.new R) = .ok (ds', e') ∧
       e'.index = R.length) → SliceRun c k (Bytes.new R) := by
     rintro R ⟨ds', e', h1, h2⟩
